@@ -58,20 +58,71 @@ func verifNewBreaker(onChange func(string, State, State)) (*CircuitBreaker, int,
 // VerifC07Seq drives the real breaker through every history of <= k events over
 // {ok, error, panic, time passes} and checks the safety clauses of C07 on each
 // transition with ghost counters written from the property statement.
+// VerifC07Spaced: the interval clause directly. failure_threshold = n failures,
+// every gap between consecutive failures any duration <= interval (their sum
+// may exceed the interval many times over): the breaker is open after the n-th.
+// And one gap longer than the interval starts the count afresh: with that gap
+// before the last failure the breaker is still closed (n >= 2).
+func VerifC07Spaced(n int, longGap int) {
+	interval := verifrt.IntRange("interval", 1, 1<<40)
+	timeout := verifrt.IntRange("timeout", 1, 1<<40)
+	cb := NewCircuitBreaker(Settings{Name: "verif", MaxRequests: 1, Interval: time.Duration(interval), Timeout: time.Duration(timeout),
+		FailureThreshold: uint32(n), SuccessThreshold: 1})
+	for i := 0; i < n; i++ {
+		if i > 0 {
+			gap := verifrt.IntRange("gap", 0, 1<<41)
+			if longGap != 0 && i == n-1 {
+				verifrt.Assume(gap > interval)
+			} else {
+				verifrt.Assume(gap <= interval)
+			}
+			verifrt.Advance(time.Duration(gap))
+		}
+		verifrt.Assert(cb.State() == StateClosed, "fewer than failure_threshold failures leave the breaker closed")
+		verifExec(cb, func() error { return verifErrBoom })
+	}
+	if longGap != 0 {
+		verifrt.Assert(cb.State() == StateClosed, "a gap longer than interval between consecutive failures starts the count afresh")
+	} else {
+		verifrt.Assert(cb.State() == StateOpen, "failure_threshold failures with no gap longer than interval between consecutive ones open the breaker, however long the run takes in total")
+	}
+}
+
+// verifTimedSteps: see VerifC07SeqTimed.
+var verifTimedSteps = false
+
+// VerifC07SeqTimed: the same checks over histories of <= k steps where every
+// step is "any amount of time passes (possibly none), then a request".
+func VerifC07SeqTimed(k int) {
+	verifTimedSteps = true
+	defer func() { verifTimedSteps = false }()
+	VerifC07Seq(k)
+}
+
 func VerifC07Seq(k int) {
 	cb, ft, st, mr, interval, timeout := verifNewBreaker(nil)
 	now := int64(0)
-	g := 0            // failures accumulated with no gap > interval
+	g := 0 // failures accumulated with no gap > interval
 	lastFail := int64(-1)
 	openedAt := int64(0)
 	trials, succ := 0, 0
 	for i := 0; i < k; i++ {
-		ev := verifrt.Choice("event", 4)
-		if ev == 3 {
-			dt := verifrt.IntRange("dt", 1, 1<<41)
+		ev := 0
+		if verifTimedSteps {
+			// every step is "some time passes (possibly none), then a request": histories of
+			// spaced failures need half as many steps
+			dt := verifrt.IntRange("dt", 0, 1<<41)
 			verifrt.Advance(time.Duration(dt))
 			now += int64(dt)
-			continue
+			ev = verifrt.Choice("event", 3)
+		} else {
+			ev = verifrt.Choice("event", 4)
+			if ev == 3 {
+				dt := verifrt.IntRange("dt", 1, 1<<41)
+				verifrt.Advance(time.Duration(dt))
+				now += int64(dt)
+				continue
+			}
 		}
 		pre := cb.State()
 		invoked := false
